@@ -228,6 +228,10 @@ func runCut(c *mc.Ctx, p cutParams) {
 				r.ToBlock, descr(r.Bridges, r.Claims))
 		}
 	}
+	// the same cut as the two real flows apply it (non-retry certificates)
+	if prev != 2 {
+		checkFlows(e, l, last, startL2, in)
+	}
 	// "no new blocks": the syncer has not passed the previous certificate => no certificate at all
 	{
 		evals++
